@@ -1,4 +1,4 @@
-import QuantemModel.Lemmas.Unwrap
+import QuantemModel.Lemmas.UnwrapExtra
 /-!
 C17 — reliability-sorted phase unwrapping (Model/Unwrap.lean) recovers any Itoh-smooth phase
 up to one additive constant per connected component of the masked edge graph.
@@ -345,6 +345,284 @@ theorem bf_overlap_correct (half : ℝ) (hh : 0 < half) (H W : Nat) (m : Nat →
     rw [e1, e2]
     linarith
 
+/-! ## 6. Inputs that are not wrapped into [-π, π) -/
+
+/-- **Itoh, general form**: the stored values may be ANY representatives `w = φ - 2·half·n` of the
+truth (no window); `_find_wrap` returns the difference of the wrap counts as soon as the counts of
+the two neighbours are at most one apart. -/
+theorem itoh_general (half : ℝ) (hh : 0 < half) (pa pb wa wb : ℝ) (na nb : ℤ)
+    (ha : wa = pa - 2 * half * na) (hb : wb = pb - 2 * half * nb)
+    (hstep : -1 ≤ na - nb ∧ na - nb ≤ 1) (hitoh : |pa - pb| < half) :
+    findWrap half wa wb = na - nb :=
+  itoh_findWrap_step hh ha hb hstep hitoh
+
+/-- **unwrap_correct for raw input** — the model takes the values as they are (no wrapping is
+applied to the input, exactly as the code).  Let the input be any representative
+`w = φ - 2·half·n` of an Itoh-smooth truth on the pixels used.  If the wrap counts of the two ends
+of every pair used are at most one apart — true for input wrapped into ANY window of width 2π
+(`unwrap_correct_window`), for already-unwrapped input (`n = 0`), and for partially unwrapped
+input — the result is the truth up to one constant per connected component, for every order. -/
+theorem unwrap_correct_general (half : ℝ) (hh : 0 < half) (N : Nat) (φ w : Nat → ℝ) (n : Nat → ℤ)
+    (order : List (Nat × Nat)) (hin : ∀ p ∈ order, p.1 < N ∧ p.2 < N)
+    (hrep : ∀ i, Touched order i → w i = φ i - 2 * half * n i)
+    (hstep : ∀ p ∈ order, -1 ≤ n p.1 - n p.2 ∧ n p.1 - n p.2 ≤ 1)
+    (hitoh : ∀ p ∈ order, |φ p.1 - φ p.2| < half) :
+    ∃ out : List ℝ,
+      unwrapSorted half N w (edgesOfPairs half w order) = some out ∧ out.length = N ∧
+      ∀ a b, a < N → b < N → Conn order a b → out.getD a 0 - φ a = out.getD b 0 - φ b := by
+  have hin' : ∀ e ∈ edgesOfPairs half w order, e.i1 < N ∧ e.i2 < N := by
+    intro e he
+    obtain ⟨p, hp, rfl⟩ := (mem_edgesOfPairs half w order e).mp he
+    exact hin p hp
+  obtain ⟨u, incs, root, hu, _, hincs, _, _, hroot, hcons⟩ := offsets_spec _ hin'
+  have hn : ∀ e ∈ edgesOfPairs half w order, e.inc = n e.i1 - n e.i2 := by
+    intro e he
+    obtain ⟨p, hp, rfl⟩ := (mem_edgesOfPairs half w order e).mp he
+    exact itoh_findWrap_step hh (hrep p.1 ⟨p, hp, Or.inl rfl⟩) (hrep p.2 ⟨p, hp, Or.inr rfl⟩)
+      (hstep p hp) (hitoh p hp)
+  obtain ⟨_, hoff⟩ := hcons n hn
+  obtain ⟨c, hlen, hout⟩ := assemble_spec half N w incs
+  refine ⟨assemble half N w incs, by simp [unwrapSorted, hu, hincs], hlen, ?_⟩
+  intro a b ha hb hconn
+  rcases conn_touched hconn with rfl | ⟨ta, tb⟩
+  · rfl
+  have hr : root a = root b := hroot a b ha hb ((conn_iff_edges half w order a b).mp hconn)
+  rw [hout a ha, hout b hb, hoff a ha, hoff b hb, hrep a ta, hrep b tb, hr]
+  push_cast
+  ring
+
+/-- On the pixels in `S`, `w` is `φ` moved by whole multiples of `2·half` into the window
+`[c, c + 2·half]` (`c = -half`: the `[-π, π)` convention; `c = 0`: the `[0, 2π)` convention). -/
+def IsWrapInWindow (half c : ℝ) (S : Nat → Prop) (w φ : Nat → ℝ) (n : Nat → ℤ) : Prop :=
+  ∀ i, S i → w i = φ i - 2 * half * n i ∧ c ≤ w i ∧ w i ≤ c + 2 * half
+
+/-- **unwrap_correct for any wrapping convention**: input wrapped into any window of width 2π. -/
+theorem unwrap_correct_window (half c : ℝ) (hh : 0 < half) (N : Nat) (φ w : Nat → ℝ) (n : Nat → ℤ)
+    (order : List (Nat × Nat)) (hin : ∀ p ∈ order, p.1 < N ∧ p.2 < N)
+    (hwrap : IsWrapInWindow half c (Touched order) w φ n)
+    (hitoh : ∀ p ∈ order, |φ p.1 - φ p.2| < half) :
+    ∃ out : List ℝ,
+      unwrapSorted half N w (edgesOfPairs half w order) = some out ∧ out.length = N ∧
+      ∀ a b, a < N → b < N → Conn order a b → out.getD a 0 - φ a = out.getD b 0 - φ b := by
+  apply unwrap_correct_general half hh N φ w n order hin (fun i hi => (hwrap i hi).1) _ hitoh
+  intro p hp
+  obtain ⟨ea, la, ua⟩ := hwrap p.1 ⟨p, hp, Or.inl rfl⟩
+  obtain ⟨eb, lb, ub⟩ := hwrap p.2 ⟨p, hp, Or.inr rfl⟩
+  exact step_of_window hh ea eb (abs_le.mpr ⟨by linarith, by linarith⟩) (hitoh p hp)
+
+/-- … on the pixel grid: every `H × W`, mask, bounded or periodic, every merge order, every window. -/
+theorem unwrap_correct_grid_window (half c : ℝ) (hh : 0 < half) (H W : Nat) (mask : Nat → Bool) (wrap : Bool)
+    (φ w : Nat → ℝ) (n : Nat → ℤ) (order : List (Nat × Nat))
+    (hperm : order.Perm (maskedPairs H W mask wrap))
+    (hwrap : IsWrapInWindow half c (fun i => i < H * W ∧ mask i = true) w φ n)
+    (hitoh : ∀ p ∈ maskedPairs H W mask wrap, |φ p.1 - φ p.2| < half) :
+    ∃ out : List ℝ,
+      unwrapPhase2d half H W w order = some out ∧ out.length = H * W ∧
+      ∀ a b, a < H * W → b < H * W → Conn (maskedPairs H W mask wrap) a b →
+        out.getD a 0 - φ a = out.getD b 0 - φ b := by
+  have hin : ∀ p ∈ order, p.1 < H * W ∧ p.2 < H * W :=
+    fun p hp => maskedPairs_lt H W mask wrap p (hperm.mem_iff.mp hp)
+  have hwrap' : IsWrapInWindow half c (Touched order) w φ n := by
+    rintro i ⟨p, hp, hi⟩
+    have hp' := hperm.mem_iff.mp hp
+    have hm := maskedPairs_mask H W mask wrap p hp'
+    have hl := maskedPairs_lt H W mask wrap p hp'
+    rcases hi with rfl | rfl
+    · exact hwrap _ ⟨hl.1, hm.1⟩
+    · exact hwrap _ ⟨hl.2, hm.2⟩
+  obtain ⟨out, h1, h2, h3⟩ := unwrap_correct_window half c hh (H * W) φ w n order hin hwrap'
+    (fun p hp => hitoh p (hperm.mem_iff.mp hp))
+  exact ⟨out, h1, h2, fun a b ha hb hc => h3 a b ha hb ((conn_perm hperm a b).mpr hc)⟩
+
+/-- The boundary of the domain, kept visible: when two neighbours are stored TWO cycles apart
+(`n = 0, -2` on a flat truth) the increment `_find_wrap` returns (±1 at most) is not the difference
+of the wrap counts and the truth is NOT recovered.  Such input is neither a wrapped nor an
+unwrapped smooth field, so it is outside the property; the step hypothesis of
+`unwrap_correct_general` cannot be dropped. -/
+theorem unwrap_multicycle_counterexample :
+    ∃ (φ w : Nat → ℝ) (n : Nat → ℤ), (∀ i, w i = φ i - 2 * 1 * n i) ∧ |φ 0 - φ 1| < 1 ∧
+      ∃ out : List ℝ, unwrapSorted (1 : ℝ) 2 w (edgesOfPairs 1 w [(0, 1)]) = some out ∧
+        out.getD 0 0 - φ 0 ≠ out.getD 1 0 - φ 1 := by
+  refine ⟨fun _ => 0, fun i => if i = 1 then 4 else 0, fun i => if i = 1 then -2 else 0, ?_, by norm_num, ?_⟩
+  · intro i
+    by_cases h : i = 1
+    · simp [h]; norm_num
+    · simp [h]
+  · have he : edgesOfPairs (1 : ℝ) (fun i => if i = 1 then (4 : ℝ) else 0) [(0, 1)] = [⟨0, 1, 1⟩] := by
+      simp [edgesOfPairs, findWrap_real]; norm_num
+    have hu : (unionAll (UF.init 2) [⟨0, 1, 1⟩]).bind finalOffsets = some [0, -1] := by decide
+    obtain ⟨c, _, hout⟩ := assemble_spec (1 : ℝ) 2 (fun i => if i = 1 then (4 : ℝ) else 0) [0, -1]
+    refine ⟨assemble 1 2 (fun i => if i = 1 then (4 : ℝ) else 0) [0, -1], ?_, ?_⟩
+    · rw [he]
+      unfold unwrapSorted
+      cases h1 : unionAll (UF.init 2) [⟨0, 1, 1⟩] with
+      | none => simp [h1] at hu
+      | some u =>
+        simp only [h1, Option.bind_some] at hu
+        simp [hu]
+    · rw [hout 0 (by norm_num), hout 1 (by norm_num)]
+      norm_num
+      intro h
+      linarith
+
+/-! ## 7. The reliability only chooses the order -/
+
+/-- **Independence of the reliability / of the sort.**  Sort the masked neighbour pairs with ANY
+comparison function whatsoever (`le` need not even be an order) — in particular by any
+reliability values, by the code's `_pixel_reliability`, ascending or descending, stable or not:
+the specification of `unwrap_correct_grid` holds. -/
+theorem unwrap_correct_any_sort (half : ℝ) (hh : 0 < half) (H W : Nat) (mask : Nat → Bool) (wrap : Bool)
+    (φ w : Nat → ℝ) (n : Nat → ℤ) (le : Nat × Nat → Nat × Nat → Bool)
+    (hwrap : IsWrapOn half (fun i => i < H * W ∧ mask i = true) w φ n)
+    (hitoh : ∀ p ∈ maskedPairs H W mask wrap, |φ p.1 - φ p.2| < half) :
+    ∃ out : List ℝ,
+      unwrapPhase2d half H W w (sortPairs le (maskedPairs H W mask wrap)) = some out ∧
+      out.length = H * W ∧
+      ∀ a b, a < H * W → b < H * W → Conn (maskedPairs H W mask wrap) a b →
+        out.getD a 0 - φ a = out.getD b 0 - φ b :=
+  unwrap_correct_grid half hh H W mask wrap φ w n _ (List.mergeSort_perm _ _) hwrap hitoh
+
+/-- The complete function with nothing left as an input (`unwrapReliability`: reliability from
+wrapped second differences, sort, unions, offsets, assembly) meets the specification for ANY
+function `wrapf` put in the place of `_wrap_to_pi` inside `_pixel_reliability`, i.e. for any
+reliability formula of that shape; `sortedPairs` is a permutation of the masked pairs. -/
+theorem unwrap_reliability_correct (half : ℝ) (hh : 0 < half) (wrapf : ℝ → ℝ) (H W : Nat) (mask : Nat → Bool)
+    (wrap : Bool) (φ w : Nat → ℝ) (n : Nat → ℤ)
+    (hwrap : IsWrapOn half (fun i => i < H * W ∧ mask i = true) w φ n)
+    (hitoh : ∀ p ∈ maskedPairs H W mask wrap, |φ p.1 - φ p.2| < half) :
+    ∃ out : List ℝ,
+      unwrapReliability half wrapf H W w mask wrap = some out ∧ out.length = H * W ∧
+      ∀ a b, a < H * W → b < H * W → Conn (maskedPairs H W mask wrap) a b →
+        out.getD a 0 - φ a = out.getD b 0 - φ b :=
+  unwrap_correct_any_sort half hh H W mask wrap φ w n _ hwrap hitoh
+
+/-- `_wrap_to_pi` (run at `Rat`, units of π): the value lies in `[-1, 1)` and differs from the
+argument by an even integer -/
+theorem wrap_to_pi_spec (x : Rat) :
+    -1 ≤ wrapToPiRat x ∧ wrapToPiRat x < 1 ∧
+      x - wrapToPiRat x = 2 * ((((x + 1) / 2).floor : Int) : Rat) :=
+  wrapToPiRat_spec x
+
+/-! ## 8. The periodic grid is the torus graph, with multiplicities -/
+
+/-- **The periodic edge list as a multiset**, for every `H × W` (square or not, `H` or `W` equal to
+1 or 2 included): pixel `a` contributes exactly the pair to its right torus neighbour and the pair
+to its lower torus neighbour.  Hence for `W = 1` the "right" pairs are self-loops, for `W = 2` the
+two horizontal neighbours are joined by two pairs `(a,b)`, `(b,a)` (same for `H`), and nothing
+else is ever doubled; in particular every seam pair `(r, W-1)—(r, 0)` and `(H-1, c)—(0, c)` is
+there exactly once for sizes ≥ 3. -/
+theorem periodic_edges_multiset (H W a b : Nat) :
+    (edgePairs H W true).count (a, b) =
+      (if a < H * W ∧ rightNb W a = b then 1 else 0) + (if a < H * W ∧ downNb H W a = b then 1 else 0) :=
+  edgePairs_periodic_count H W a b
+
+theorem periodic_edges_length (H W : Nat) : (edgePairs H W true).length = 2 * (H * W) :=
+  edgePairs_periodic_length H W
+
+/-! ## 9. Scatter and gather of the bright-field embedding -/
+
+/-- **Per-pixel specification of the scatter** `phase_grid[bf_mask] = phase_bf`,
+`mask_grid[bf_mask] = mask_bf`: the `k`-th true pixel of `bf_mask` (row-major) receives the `k`-th
+entry; every other pixel keeps `0` / `False`. -/
+theorem bf_scatter_spec {α : Type} (N : Nat) (bfMask : Nat → Bool) (vals : List α) (d : α) :
+    (∀ k (hk : k < (bfPositions N bfMask).length) (hk' : k < vals.length),
+      (scatter N (bfPositions N bfMask) vals d).getD (bfPositions N bfMask)[k] d = vals[k]) ∧
+    (∀ i, ¬ (i < N ∧ bfMask i = true) → (scatter N (bfPositions N bfMask) vals d).getD i d = d) ∧
+    (∀ i, i ∈ bfPositions N bfMask ↔ i < N ∧ bfMask i = true) :=
+  ⟨fun k hk hk' => scatter_at_pos N bfMask vals d k hk hk',
+   fun i hi => scatter_off_pos N bfMask vals d i (fun h => hi (mem_bfPositions.mp h)),
+   fun _ => mem_bfPositions⟩
+
+/-- **`unwrap_bf_overlap_phase_torch`, whole function** (scatter, grid body, gather), for every grid,
+`bf_mask`, overlap mask, `two_pass`, wrap-around setting and merge orders.  `K` = number of
+bright-field pixels; `pos k` = flat grid index of the `k`-th one.  If the `K` phases handed in are
+the wrapped truth at the overlap pixels and the truth is Itoh on neighbouring overlap pixels, the
+`K` values handed back are, entry by entry (`out[k]` belongs to pixel `pos k`), the truth up to one
+constant per connected region of the overlap mask. -/
+theorem bf_overlap_full_correct (half : ℝ) (hh : 0 < half) (H W : Nat) (bfMask : Nat → Bool)
+    (maskBf : List Bool) (phaseBf : List ℝ) (wrap twoPass : Bool) (φ : Nat → ℝ) (n : Nat → ℤ)
+    (order1 order2 : List (Nat × Nat))
+    (hlenM : maskBf.length = (bfPositions (H * W) bfMask).length)
+    (hlenP : phaseBf.length = (bfPositions (H * W) bfMask).length)
+    (hp1 : order1.Perm (maskedPairs H W (bfMaskGrid (H * W) bfMask maskBf) wrap))
+    (hp2 : order2.Perm (maskedPairs H W (bfMaskGrid (H * W) bfMask maskBf) wrap))
+    (hwrap : ∀ k, k < (bfPositions (H * W) bfMask).length → maskBf.getD k false = true →
+      phaseBf.getD k 0 = φ ((bfPositions (H * W) bfMask).getD k 0)
+          - 2 * half * n ((bfPositions (H * W) bfMask).getD k 0) ∧
+        -half ≤ phaseBf.getD k 0 ∧ phaseBf.getD k 0 ≤ half)
+    (hitoh : ∀ p ∈ maskedPairs H W (bfMaskGrid (H * W) bfMask maskBf) wrap, |φ p.1 - φ p.2| < half) :
+    ∃ br out, unwrapBfOverlap half H W bfMask maskBf phaseBf twoPass order1 order2 = some (br, out) ∧
+      out.length = (bfPositions (H * W) bfMask).length ∧
+      ∀ k l, k < out.length → l < out.length →
+        maskBf.getD k false = true → maskBf.getD l false = true →
+        Conn (maskedPairs H W (bfMaskGrid (H * W) bfMask maskBf) wrap)
+          ((bfPositions (H * W) bfMask).getD k 0) ((bfPositions (H * W) bfMask).getD l 0) →
+        out.getD k 0 - φ ((bfPositions (H * W) bfMask).getD k 0)
+          = out.getD l 0 - φ ((bfPositions (H * W) bfMask).getD l 0) := by
+  set N := H * W with hN
+  set pos := bfPositions N bfMask with hpos
+  -- what the scatter produced
+  have hgetD : ∀ {β : Type} (l : List β) (d : β) (k : Nat) (hk : k < l.length), l.getD k d = l[k] := by
+    intro β l d k hk
+    rw [List.getD_eq_getElem?_getD, List.getElem?_eq_getElem hk]; rfl
+  have hm_at : ∀ k (hk : k < pos.length), bfMaskGrid N bfMask maskBf (pos.getD k 0) = maskBf.getD k false := by
+    intro k hk
+    have hk' : k < maskBf.length := by omega
+    rw [hgetD pos 0 k hk, hgetD maskBf false k hk']
+    exact scatter_at_pos N bfMask maskBf false k hk hk'
+  have hg_at : ∀ k (hk : k < pos.length),
+      (scatter N pos phaseBf (Num.zero : ℝ)).getD (pos.getD k 0) Num.zero = phaseBf.getD k 0 := by
+    intro k hk
+    have hk' : k < phaseBf.length := by omega
+    rw [hgetD pos 0 k hk, hgetD phaseBf 0 k hk']
+    exact scatter_at_pos N bfMask phaseBf Num.zero k hk hk'
+  have hm_pos : ∀ i, bfMaskGrid N bfMask maskBf i = true → ∃ k, k < pos.length ∧ pos.getD k 0 = i := by
+    intro i hi
+    by_contra hne
+    have hnot : i ∉ pos := by
+      intro hmem
+      obtain ⟨k, hk, rfl⟩ := List.getElem_of_mem hmem
+      exact hne ⟨k, hk, hgetD pos 0 k hk⟩
+    have : bfMaskGrid N bfMask maskBf i = false := scatter_off_pos N bfMask maskBf false i hnot
+    rw [this] at hi; exact Bool.noConfusion hi
+  -- the grid-level hypotheses
+  have hwrapG : IsWrapOn half (fun i => i < H * W ∧ bfMaskGrid N bfMask maskBf i = true)
+      (fun i => (scatter N pos phaseBf (Num.zero : ℝ)).getD i Num.zero) φ n := by
+    rintro i ⟨_, hi⟩
+    obtain ⟨k, hk, rfl⟩ := hm_pos i hi
+    rw [hm_at k hk] at hi
+    simp only [hg_at k hk]
+    exact hwrap k hk hi
+  obtain ⟨br, g, hbody, hspec⟩ := bf_overlap_correct half hh H W (bfMaskGrid N bfMask maskBf) wrap twoPass
+    (fun i => (scatter N pos phaseBf (Num.zero : ℝ)).getD i Num.zero) φ n order1 order2 hp1 hp2 hwrapG hitoh
+  refine ⟨br, pos.map g, ?_, by simp, ?_⟩
+  · unfold unwrapBfOverlap
+    simp only [← hN, ← hpos, hbody]
+  · intro k l hk hl hmk hml hconn
+    simp only [List.length_map] at hk hl
+    have ek : (pos.map g).getD k 0 = g (pos.getD k 0) := by
+      rw [hgetD _ 0 k (by simpa using hk), hgetD pos 0 k hk]; simp
+    have el : (pos.map g).getD l 0 = g (pos.getD l 0) := by
+      rw [hgetD _ 0 l (by simpa using hl), hgetD pos 0 l hl]; simp
+    rw [ek, el]
+    have hk_in : pos.getD k 0 ∈ pos := by rw [hgetD pos 0 k hk]; exact List.getElem_mem hk
+    have hl_in : pos.getD l 0 ∈ pos := by rw [hgetD pos 0 l hl]; exact List.getElem_mem hl
+    exact hspec _ _ (mem_bfPositions.mp hk_in).1 (mem_bfPositions.mp hl_in).1
+      (by rw [hm_at k hk]; exact hmk) (by rw [hm_at l hl]; exact hml) hconn
+
+/-- **Every image count**: the caller's loop hands each image to the function with the same
+`bf_mask`; the `j`-th result is the function applied to the `j`-th image and nothing else (no state
+is shared), so `bf_overlap_full_correct` applies to every column, whatever the number of images. -/
+theorem bf_stack_independent (half : ℝ) (H W : Nat) (bfMask : Nat → Bool) (twoPass : Bool)
+    (imgs : List (BfImage ℝ)) :
+    (unwrapBfStack half H W bfMask twoPass imgs).length = imgs.length ∧
+    ∀ j (hj : j < imgs.length),
+      (unwrapBfStack half H W bfMask twoPass imgs)[j]? =
+        some (unwrapBfOverlap half H W bfMask imgs[j].maskBf imgs[j].phaseBf twoPass
+          imgs[j].order1 imgs[j].order2) := by
+  refine ⟨by simp [unwrapBfStack], fun j hj => ?_⟩
+  simp [unwrapBfStack, hj]
+
 /-! ## Non-vacuity -/
 
 /-- the grids that produce self-loops and duplicate edges -/
@@ -387,5 +665,60 @@ example : unwrapPhase2d (1 : Rat) 1 4 (fun i => #[0, 3/4, -1/2, 1/4].getD i 0) [
 example : (bfUnwrapGrid (1 : Rat) 1 4 (fun i => #[0, 3/4, -1/2, 1/4].getD i 0) (fun _ => true) true
       [(2, 3), (0, 1), (1, 2)] [(0, 1), (1, 2), (2, 3)]).map (fun r => (r.1, (List.range 4).map r.2))
     = some (.twoPass, [-9/8, -3/8, 3/8, 9/8]) := by decide +kernel
+
+/-- the same ramp stored in the `[0, 2π)` convention (0, 3/4, 3/2, 1/4 with wrap counts 0,0,0,1):
+the hypotheses of `unwrap_correct_grid_window` with `c = 0` are satisfiable by a field that wraps -/
+example : ∃ (φ w : Nat → ℝ) (n : Nat → ℤ),
+    IsWrapInWindow 1 0 (fun i => i < 1 * 4 ∧ (fun _ => true) i = true) w φ n ∧
+    (∀ p ∈ maskedPairs 1 4 (fun _ => true) false, |φ p.1 - φ p.2| < 1) ∧ (∃ i, n i ≠ 0) ∧ (∃ i, 1 < w i) := by
+  refine ⟨fun i => 3 / 4 * i, fun i => 3 / 4 * i - 2 * (if i < 3 then 0 else 1 : ℤ),
+    fun i => if i < 3 then 0 else 1, ?_, ?_, ⟨3, by norm_num⟩, ⟨2, by norm_num⟩⟩
+  · intro i hi
+    have : i = 0 ∨ i = 1 ∨ i = 2 ∨ i = 3 := by have := hi.1; omega
+    rcases this with rfl | rfl | rfl | rfl <;> norm_num
+  · have : maskedPairs 1 4 (fun _ => true) false = [(0, 1), (1, 2), (2, 3)] := by decide
+    rw [this]
+    intro p hp
+    simp only [List.mem_cons, List.not_mem_nil, or_false] at hp
+    rcases hp with rfl | rfl | rfl <;> norm_num [abs_lt]
+
+/-- … and the executable model on it: the `[0, 2π)` input and the already-unwrapped input both come
+back as the ramp minus its mean (the model never wraps its input) -/
+example : unwrapPhase2d (1 : Rat) 1 4 (fun i => #[0, 3/4, 3/2, 1/4].getD i 0) [(2, 3), (0, 1), (1, 2)]
+    = some [-9/8, -3/8, 3/8, 9/8] := by decide +kernel
+example : unwrapPhase2d (1 : Rat) 1 4 (fun i => #[0, 3/4, 3/2, 9/4].getD i 0) [(2, 3), (0, 1), (1, 2)]
+    = some [-9/8, -3/8, 3/8, 9/8] := by decide +kernel
+
+/-- `_pixel_reliability` and the sort, executed: on the 2×3 field below (units of π) the pixel
+reliabilities are as listed, the order shown is ascending in the edge reliability and a permutation
+of the seven bounded-grid pairs (what `sortedPairs` returns), and the unions in that order give the
+output below -/
+example : (List.range 6).map (pixelReliability wrapToPiRat 2 3 (fun i => #[0, 1/2, -3/4, 1/4, 3/4, -1/2].getD i 0) (fun _ => true))
+    = [some (7/16), some (39/16), some (11/4), some (39/16), some (7/16), some (11/4)] := by decide +kernel
+example : ascendingIn (pixelReliability wrapToPiRat 2 3 (fun i => #[0, 1/2, -3/4, 1/4, 3/4, -1/2].getD i 0) (fun _ => true))
+      [(0, 1), (3, 4), (0, 3), (1, 4), (4, 5), (1, 2), (2, 5)] = true ∧
+    [(0, 1), (3, 4), (0, 3), (1, 4), (4, 5), (1, 2), (2, 5)].Perm (maskedPairs 2 3 (fun _ => true) false) := by
+  constructor
+  · decide +kernel
+  · decide
+example : unwrapPhase2d (1 : Rat) 2 3 (fun i => #[0, 1/2, -3/4, 1/4, 3/4, -1/2].getD i 0)
+      [(0, 1), (3, 4), (0, 3), (1, 4), (4, 5), (1, 2), (2, 5)]
+    = some [-17/24, -5/24, 13/24, -11/24, 1/24, 19/24] := by decide +kernel
+
+/-- periodic grids with `H` or `W` in {1, 2}, non-square: self-loops and double edges exactly where
+`periodic_edges_multiset` says -/
+example : edgePairs 1 3 true = [(0, 1), (1, 2), (2, 0), (0, 0), (1, 1), (2, 2)] := by decide
+example : edgePairs 2 3 true =
+    [(0, 1), (1, 2), (2, 0), (3, 4), (4, 5), (5, 3), (0, 3), (1, 4), (2, 5), (3, 0), (4, 1), (5, 2)] := by decide
+example : edgePairs 3 2 true =
+    [(0, 1), (1, 0), (2, 3), (3, 2), (4, 5), (5, 4), (0, 2), (1, 3), (2, 4), (3, 5), (4, 0), (5, 1)] := by decide
+example : (edgePairs 3 2 true).count (0, 1) = 1 ∧ (edgePairs 3 2 true).count (1, 0) = 1 ∧
+    (edgePairs 1 1 true).count (0, 0) = 2 := by decide
+
+/-- the whole bright-field function executed: 2×3 grid, bf pixels 1,2,4,5, overlap mask = bf pixels
+1,2,5 (entry 2 of the four is switched off); the four entries come back in bf order -/
+example : unwrapBfOverlap (1 : Rat) 2 3 (fun i => i % 3 != 0) [true, true, false, true] [3/4, -1/2, 1/8, 1/4] false
+      [(2, 5), (1, 2)] []
+    = some (.onePass, [-1, -1/4, 0, 1/2]) := by decide +kernel
 
 end QuantemModel.Props.C17
